@@ -35,3 +35,7 @@ func instrInfo() map[string]any {
 	m["instrumented"] = true
 	return m
 }
+
+func snapshotGlobals()               { verifrt.SnapshotGlobals() }
+func restoreGlobals()                { verifrt.RestoreGlobals() }
+func globalPointers() map[string]any { return verifrt.GlobalPointers() }
